@@ -596,6 +596,28 @@ def run_sequence_isolated(seq, seam=None):
 FRESH = {}
 
 
+def run_isolated_value(func, arg):
+    """func(arg) in a forked child of the (pristine) current process; returns its (picklable) value"""
+    r, w = os.pipe()
+    pid = os.fork()
+    if pid == 0:
+        try:
+            os.close(r)
+            try:
+                data = pickle.dumps(func(arg))
+            except BaseException as e:  # noqa: BLE001
+                data = pickle.dumps("CHILD-CRASH:" + repr(e))
+            with os.fdopen(w, "wb") as f:
+                f.write(data)
+        finally:
+            os._exit(0)
+    os.close(w)
+    with os.fdopen(r, "rb") as f:
+        data = f.read()
+    os.waitpid(pid, 0)
+    return pickle.loads(data)
+
+
 def w_sequences(task):
     seqs, label = task
     acc = Acc()
@@ -740,6 +762,76 @@ def run(only=None):
                 s.violation("parse_depends_on_clock_or_randomness:" + n, {"op": n, "seam": list(seam)})
             s.case(nontrivial=True, outcome=r[2])
     s.done()
+    # ---- an entry point as the first and only thing a process does with the library ----------------------------
+    if not only or "entry_point_alone_in_a_new_interpreter" in only:
+        import concurrent.futures as _cf2
+
+        ENTRY = [
+            ("okdmr.dmrlib.etsi.layer2.burst", "Burst.from_bytes(bytes.fromhex('51dd0c4d8bb40ac413a86c5094fdff57d75df5dcadfa1268aaa87b82b9d8291910')).as_bytes().hex()", "Burst"),
+            ("okdmr.dmrlib.etsi.layer2.burst", "repr(Burst.from_bytes(bytes.fromhex('51dd0c4d8bb40ac413a86c5094fdff57d75df5dcadfa1268aaa87b82b9d8291910')).data.as_bits())", "Burst"),
+            ("okdmr.dmrlib.etsi.layer2.pdu.csbk", "CSBK.from_bits(__import__('bitarray').bitarray('101111010000000000000000000000010000000000000001100110100000000000000001100111000101011011001110')).as_bits().to01()", "CSBK"),
+            ("okdmr.dmrlib.etsi.layer2.pdu.full_link_control", "FullLinkControl.from_bits(__import__('bitarray').bitarray('0' * 24 + format(91, '024b') + format(2301234, '024b') + '0' * 24)).as_bits().to01()", "FullLinkControl"),
+            ("okdmr.dmrlib.etsi.fec.bptc_196_96", "BPTC19696.deinterleave_data_bits(BPTC19696.encode(__import__('bitarray').bitarray('10110011' * 12)), True).to01()", "BPTC19696"),
+            ("okdmr.dmrlib.etsi.fec.trellis", "Trellis34.decode(Trellis34.encode(__import__('bitarray').bitarray('101100111' * 16))).to01()", "Trellis34"),
+            ("okdmr.dmrlib.etsi.fec.reed_solomon_12_9_4", "(ReedSolomon1294.log_multiply(0x80, 0x1D), ReedSolomon1294.generate(bytes(range(9, 18)), b'\\x96\\x96\\x96').hex())", "ReedSolomon1294"),
+            ("okdmr.dmrlib.etsi.crc.crc16", "CRC16.calculate(bytes.fromhex('bd0000010001019a0001'), __import__('okdmr.dmrlib.etsi.layer2.elements.crc_masks', fromlist=['CrcMasks']).CrcMasks.CSBK)", "CRC16"),
+            ("okdmr.dmrlib.hytera.pdu.hstrp", "HSTRP.from_bytes(bytes.fromhex('32420020000183040001869f04010211000300040a000064bd03')).as_bytes().hex()", "HSTRP"),
+            ("okdmr.dmrlib.hytera.pdu.hrnp", "HRNP.from_bytes(bytes.fromhex('7e0400002010000100189b6002040005006400000001c403')).as_bytes().hex()", "HRNP"),
+            ("okdmr.dmrlib.hytera.pdu.hdap", "HDAP.from_bytes(bytes.fromhex('11000300040a000064bd03')).as_bytes().hex()", "HDAP"),
+            ("okdmr.dmrlib.hytera.hytera_ipsc", "__import__('okdmr.dmrlib.etsi.layer2.burst', fromlist=['Burst']).Burst.from_hytera_ipsc(bytes.fromhex('5a5a5a5a0300000041000501020000002222999911110000100038d424a26d410436c0dda2f46165307000904607a54d4715ff8e3685dd23255501e3000001000900000022072800')).hytera_ipsc.as_ipsc_bytes().hex()", "HyteraIPSC"),
+            ("okdmr.dmrlib.motorola.mbxml", "[MBXML.as_bytes(d).hex() for d in MBXML.from_bytes(bytes.fromhex('071A22042468ACE0341F4DBC778051118ECD8D118AD47B00636C0006'))]", "MBXML"),
+            ("okdmr.dmrlib.motorola.text_messaging_service", "TextMessagingService.from_bytes(bytes.fromhex('000ea00000840d000a00540045005300')).as_bytes().hex()", "TextMessagingService"),
+            ("okdmr.dmrlib.motorola.automatic_registration_service", "AutomaticRegistrationService.from_bytes(bytes.fromhex('0010F5000231310939393939393939393900')).as_bytes().hex()", "AutomaticRegistrationService"),
+        ]
+        s = rep.sub("entry_point_alone_in_a_new_interpreter",
+                    f"{len(ENTRY)} codec entry points (burst, PDUs, FEC, CRC, Hytera, Motorola), each evaluated in a brand-new interpreter that imports nothing of the "
+                    "library but the entry point's own module and makes that one call: same result as the same expression evaluated in this process "
+                    "(which has imported and used everything)")
+
+        def there(entry):
+            mod, expr, name = entry
+            code = ("import sys, logging\nsys.path.insert(0, %r)\nlogging.disable(logging.CRITICAL)\nimport io, contextlib\n"
+                    "from %s import %s\n"
+                    "try:\n"
+                    "    with contextlib.redirect_stdout(io.StringIO()):\n"
+                    "        r = repr(%s)\n"
+                    "except Exception as e:\n"
+                    "    r = 'raises:' + type(e).__name__ + ':' + str(e)[:100]\n"
+                    "print('RESULT:' + r)\n") % (env.REPO, mod, name, expr)
+            r = subprocess.run([sys.executable] + (["-O"] if sys.flags.optimize else []) + ["-B", "-c", code], capture_output=True, text=True,
+                               env=dict(os.environ, PYTHONHASHSEED="77"))
+            for line in r.stdout.splitlines():
+                if line.startswith("RESULT:"):
+                    return line[7:]
+            return "NO-RESULT:" + r.stderr[-200:]
+
+        def here(entry):
+            mod, expr, name = entry
+            import importlib
+            import io as _io
+            import contextlib as _cl
+            ns = {name: getattr(importlib.import_module(mod), name)}
+            try:
+                with _cl.redirect_stdout(_io.StringIO()):
+                    return repr(eval(expr, ns))  # noqa: S307  (fixed expressions above)
+            except Exception as e:  # noqa: BLE001
+                return "raises:" + type(e).__name__ + ":" + str(e)[:100]
+
+        with _cf2.ThreadPoolExecutor(max_workers=8) as ex:
+            theres = list(ex.map(there, ENTRY))
+        for entry, t_ in zip(ENTRY, theres):
+            h_ = run_isolated_value(here, entry)
+            case = {"module": entry[0], "expression": entry[1][:160]}
+            if t_.startswith("NO-RESULT"):
+                rep.internal_error(f"new interpreter for {entry[0]} gave no result: {t_}")
+            elif h_ != t_:
+                s.violation(f"result_differs_when_the_entry_point_is_alone_in_a_new_interpreter:{entry[2]}", {**case, "here": h_[:200], "there": t_[:200]},
+                            "the same call gives another result (or fails) in a process that imported only the entry point's module")
+            elif h_.startswith("raises:"):
+                rep.internal_error(f"entry expression for {entry[0]} raises in both processes: {h_}")
+            s.case(nontrivial=True, calls=2, outcome=entry[2], sample=case if len(s.samples) < 1 else None)
+        s.declared = len(ENTRY)
+        s.done()
     # ---- all ordered pairs ------------------------------------------------------------------------------
     if not only or "all_ordered_pairs" in only:
         s = rep.sub("all_ordered_pairs", f"all {len(names)}^2 ordered pairs (i, j) incl. i == j, each in its own forked child; non-trivial: every pair")
